@@ -254,8 +254,20 @@ func deriveInput(rc *RunCtx, x string, hot []int, allow contentFaults) (string, 
 		return simrt.Choose(n)
 	}
 	for i := 0; i < nf; i++ {
-		kind := simrt.Choose(7)
+		kind := simrt.Choose(8)
 		switch {
+		case kind == 7 && allow.earlyEOF && allow.corrupt:
+			// a transfer that went bad and then broke off: one damaged byte, a little more text,
+			// and the end in the middle of a multi-byte character
+			at := pick(len(d) + 1)
+			for at > 0 && at < len(d) && !utf8.RuneStart(d[at]) {
+				at--
+			}
+			bad := []string{"\x01", "\x7f", "`", "\\", "#", "@", "\xff", "\x00"}[simrt.Choose(8)]
+			const filler = "abcdefghijklmnopqrstuvwxyz012345"
+			tail := []string{"\xe8\xaa", "\xf0\x9d\x9b", "\xc3", "\xe8", "\xf0\x9d", "\xaa\x9e"}[simrt.Choose(6)]
+			d = d[:at] + bad + filler[:simrt.Choose(len(filler))] + tail
+			fired = append(fired, "torn-tail")
 		case kind == 6 && allow.reencode && len(d) > 0:
 			// a very long token: a run of one (possibly multi-byte) character inserted into the text
 			at := pick(len(d))
